@@ -41,6 +41,8 @@ type runner struct {
 	v    *vocab
 	w    *worker
 	seed uint64
+
+	classes map[string]res.Finding
 }
 
 // Run is the runner entry.  tier "worker" is the sub-process mode used for P4.
@@ -59,10 +61,10 @@ func Run(tier string, seed uint64, modelPath, repo string, out *res.Result) erro
 		return err
 	}
 	r := rng.New(seed)
-	rn := &runner{m: m, out: out, v: v, w: &worker{}, seed: seed}
+	rn := &runner{m: m, out: out, v: v, w: &worker{}, seed: seed, classes: map[string]res.Finding{}}
 	defer rn.w.stop()
 
-	nSpell, nShort, nBlocks, nVars, kwPerProp := 9000, 3000, 2500, 2500, 120
+	nSpell, nShort, nBlocks, nVars, kwPerProp := 9000, 3000, 2500, 2500, 0
 	if tier == "thorough" {
 		nSpell, nShort, nBlocks, nVars, kwPerProp = 260000, 60000, 50000, 40000, 0
 	}
@@ -102,11 +104,47 @@ func Run(tier string, seed uint64, modelPath, repo string, out *res.Result) erro
 		out.Dist["crash-site:"+site] = crashCount[site]
 		rn.add("crash", "crash:validator", in, crashMsg[site], "", "the validator panics instead of rejecting the declaration", site, 0)
 	}
+	rn.flush()
 	return nil
 }
 
+// add collects findings; one (the shortest input) is kept per class (kind, op, key) and handed to the
+// result at the end, unclassified classes first (the result keeps at most 40 findings).
 func (rn *runner) add(kind, op, input, impl, model, reason, key string, seed uint64) {
-	rn.out.Add(res.Finding{Kind: kind, Op: op, Input: input, Impl: impl, Model: model, Reason: reason, Key: key, Seed: seed})
+	class := kind + "|" + op + "|" + key
+	rn.out.Hit("class:" + class)
+	f := res.Finding{Kind: kind, Op: op, Input: input, Impl: impl, Model: model, Reason: reason, Key: key, Seed: seed}
+	if old, ok := rn.classes[class]; !ok || len(input) < len(old.Input.(string)) {
+		rn.classes[class] = f
+	}
+}
+
+func (rn *runner) flush() {
+	var keys []string
+	for k := range rn.classes {
+		keys = append(keys, k)
+	}
+	rank := func(k string) int {
+		f := rn.classes[k]
+		switch {
+		case f.Kind == "crash":
+			return 0
+		case f.Key == "":
+			return 1
+		case f.Kind == "corr":
+			return 2
+		}
+		return 3
+	}
+	sort.Slice(keys, func(i, j int) bool {
+		if rank(keys[i]) != rank(keys[j]) {
+			return rank(keys[i]) < rank(keys[j])
+		}
+		return keys[i] < keys[j]
+	})
+	for _, k := range keys {
+		rn.out.Add(rn.classes[k])
+	}
 }
 
 // ---------------------------------------------------------------- P1 spelling
@@ -169,6 +207,12 @@ func (rn *runner) spellOne(r *rng.R, name, value string, variants int) {
 		}
 		if txt0 != txt1 {
 			key := ""
+			if valid {
+				key = classifySpelling(name, variant, txt0)
+			}
+			if key == "" && os.Getenv("C08_DEBUG") != "" {
+				fmt.Fprintf(os.Stderr, "UNCLASSIFIED valid=%v\n  base: %q -> %s\n  var : %q -> %s\n", valid, base, txt0, variant, txt1)
+			}
 			rn.add("judge", "judge:spelling", base+"  ~~  "+variant, txt1, txt0,
 				"the same declaration spelled differently (ASCII case / whitespace / comments) has another meaning", key, sub.Seed())
 		}
@@ -224,8 +268,8 @@ func (rn *runner) colourFamily(r *rng.R) {
 		rn.out.Count("colour:"+a, len(yes) > 0)
 		if len(yes) > 0 && len(no) > 0 {
 			key := ""
-			if len(yes) == 1 && yes[0] == "color" {
-				key = "color-accepts-non-colour"
+			if len(yes) == 1 && (yes[0] == "color" || yes[0] == "outline-color") {
+				key = yes[0] + "-accepts-non-colour"
 			}
 			rn.add("judge", "judge:invalid-accepted", "color: red; color: "+a,
 				"accepted by "+strings.Join(yes, ",")+"; rejected by "+strings.Join(no, ","), "",
@@ -335,6 +379,10 @@ func (rn *runner) shorthands(r *rng.R, n int) error {
 				return err
 			}
 			want := ""
+			if kw := asciiLower(strings.TrimSpace(value)); kw == "inherit" || kw == "initial" {
+				ok = false // CSS-wide keywords apply to the shorthand as a whole
+				want = declsText(preprocessText(names[0] + ":" + kw + ";" + names[1] + ":" + kw + ";" + names[2] + ":" + kw + ";" + names[3] + ":" + kw))
+			}
 			if ok {
 				ls := make([]string, 4)
 				allOK := true
@@ -375,6 +423,11 @@ func (rn *runner) shorthands(r *rng.R, n int) error {
 				return err
 			}
 			want := ""
+			if kw := asciiLower(strings.TrimSpace(value)); kw == "inherit" || kw == "initial" {
+				ok = false
+				n4 := cornerNames
+				want = declsText(preprocessText(n4[0] + ":" + kw + ";" + n4[1] + ":" + kw + ";" + n4[2] + ":" + kw + ";" + n4[3] + ":" + kw))
+			}
 			if ok {
 				ls := make([]string, 4)
 				allOK := true
@@ -534,7 +587,7 @@ func (rn *runner) blocks(r *rng.R, n int) error {
 					continue
 				}
 			}
-			if len(preprocessText(d)) == 0 {
+			if len(preprocessText(d)) == 0 || crashedLast {
 				continue
 			}
 			good = append(good, d)
@@ -545,7 +598,7 @@ func (rn *runner) blocks(r *rng.R, n int) error {
 		isBad := make([]bool, len(all))
 		for j := 0; j < nb; j++ {
 			bad := rn.v.badDecl(sub)
-			if len(preprocessText(bad)) != 0 {
+			if len(preprocessText(bad)) != 0 || crashedLast {
 				continue // not actually rejected
 			}
 			pos := sub.Intn(len(all) + 1)
@@ -583,6 +636,8 @@ type corpusCase struct {
 	HTML  string   `json:"html"`
 	Props []string `json:"props"`
 	Note  string   `json:"note"`
+	// SameAs: a document whose computed values of Props must be identical
+	SameAs string `json:"same_as,omitempty"`
 }
 
 // corpus: minimal inputs of past failures, run first (in the worker).
@@ -610,6 +665,11 @@ func (rn *runner) corpus() error {
 			rn.add("crash", "crash:var", c.HTML, "worker process died (stack overflow / fatal error)", "", c.Note, "worker-died", 0)
 		} else if resp.Panic != "" {
 			rn.add("crash", "crash:var", c.HTML, resp.Panic, "", c.Note, resp.Site, 0)
+		} else if c.SameAs != "" {
+			ref, died2 := rn.w.ask(styleReq{HTML: c.SameAs, Props: c.Props})
+			if !died2 && ref.Panic == "" && strings.Join(ref.Vals, " | ") != strings.Join(resp.Vals, " | ") {
+				rn.add("judge", "judge:corpus", c.HTML, strings.Join(resp.Vals, " | "), strings.Join(ref.Vals, " | ")+"   as "+c.SameAs, c.Note, "", 0)
+			}
 		}
 	}
 	return nil
@@ -642,6 +702,9 @@ func (rn *runner) vars(r *rng.R, n int) error {
 		docA := c.doc(c.Value, true)
 		nontrivial := strings.Contains(strings.ToLower(c.Value), "var(")
 		rn.out.Count(docA, nontrivial)
+		if !nontrivial {
+			continue
+		}
 		for _, s := range c.Shape {
 			rn.out.Hit("var:" + s)
 		}
@@ -651,7 +714,12 @@ func (rn *runner) vars(r *rng.R, n int) error {
 			rn.add("crash", "crash:var", docA, bad, "", "computing the style of the probe element crashed", strings.SplitN(bad, ":", 3)[0], sub.Seed())
 			continue
 		}
-		none, bad := rn.styles(c.doc("", false), c.Observe)
+		// invalid at computed-value time: the inherited value for inherited properties, else the initial one
+		dflt := "initial"
+		if kp, ok := pr.PropsFromNames[c.Observe[0]]; ok && pr.Inherited.Has(kp) {
+			dflt = "inherit"
+		}
+		none, bad := rn.styles(c.doc(dflt, false), c.Observe)
 		if bad != "" {
 			continue
 		}
@@ -721,8 +789,15 @@ func (rn *runner) vars(r *rng.R, n int) error {
 			got2, bad := rn.styles(c2.doc(variant, true), c.Observe)
 			rn.out.Hit("var:spelling-variant")
 			if bad == "" && strings.Join(got2, " | ") != gs {
+				key := ""
+				if t, _ := respell(c2.Prop+":"+variant, true, false, false); strings.Contains(t, ":") {
+					got3, bad3 := rn.styles(c2.doc(t[strings.Index(t, ":")+1:], true), c.Observe)
+					if bad3 == "" && strings.Join(got3, " | ") == gs {
+						key = "upper-case-unit"
+					}
+				}
 				rn.add("judge", "judge:spelling", docA+"  ~~  "+c2.doc(variant, true), strings.Join(got2, " | "), gs,
-					"the same var() declaration spelled differently computes to another value", "", sub.Seed())
+					"the same var() declaration spelled differently computes to another value", key, sub.Seed())
 			}
 		}
 		if i < 2 {
